@@ -1,11 +1,144 @@
 import Oracle.Util
+import Wz.Model.Wasi
+import Wz.Model.DescTable
 namespace Oracle.C15
-open Oracle
+open Oracle Wz.Model Wz.Model.Wasi
 
-/-- Topic state (stub: no model behind this topic yet). -/
-abbrev St := Unit
-def init : St := ()
+/-- Topic state: host configuration, named memory images, the finding switch, and the table under test. -/
+structure St where
+  host : Host := {}
+  imgs : List (String × Mem) := []
+  fixed : Bool := false
+  tbl : DescTable.Table Nat := DescTable.empty
 
-def step (st : St) (_args : List String) : St × String := (st, "bad-op")
+def init : St := {}
+
+def parseHexList (s : String) : Option (List (List Nat)) :=
+  if s == "-" then some [] else (s.splitOn ",").mapM parseBytes
+
+def parseRuns (s : String) : Option (List (Nat × List Nat)) :=
+  if s == "-" then some [] else
+  (s.splitOn ",").mapM (fun r =>
+    match r.splitOn ":" with
+    | [o, h] => do
+      let off ← parseNat o
+      let bs ← parseBytes h
+      pure (off, bs)
+    | _ => none)
+
+def parseKind : String → Option Kind
+  | "in" => some .stdin
+  | "out" => some .stdout
+  | "err" => some .stderr
+  | "pre" => some .pre
+  | "file" => some .file
+  | "dir" => some .dir
+  | _ => none
+
+def kindStr : Kind → String
+  | .stdin => "in"
+  | .stdout => "out"
+  | .stderr => "err"
+  | .pre => "pre"
+  | .file => "file"
+  | .dir => "dir"
+
+def parseFds (s : String) : Option Fds :=
+  if s == "-" then some DescTable.empty else
+  (s.splitOn ",").foldlM (fun (t : Fds) e =>
+    match e.splitOn ":" with
+    | [f, k] => do
+      let fd ← parseNat f
+      let kd ← parseKind k
+      pure (DescTable.insertAt t kd (fd : Int)).1
+    | _ => none) DescTable.empty
+
+def fdsStr (t : Fds) : String :=
+  let es := (List.range t.items.length).filterMap (fun i =>
+    match t.items.getD i none with
+    | some k => some s!"{i}:{kindStr k}"
+    | none => none)
+  if es.isEmpty then "-" else String.intercalate "," es
+
+def wrStr : Wr → Option String
+  | .bytes o bs => if bs.isEmpty then none else some s!"w={o}:{bytesToHex bs}"
+  | .region o l => if l == 0 then none else some s!"w={o}+{l}"
+
+def errStr : Err → String
+  | .errno n => s!"e={n}"
+  | .any => "e=any"
+  | .panic => "e=panic"
+  | .exit => "e=exit"
+
+def resStr (r : Res) : String :=
+  let parts := [errStr r.err] ++ r.writes.filterMap wrStr ++
+    (match r.fds with | some t => [s!"t={fdsStr t}"] | none => []) ++
+    (if r.alloc > 0 then [s!"a={r.alloc}"] else [])
+  String.intercalate " " parts
+
+def tblShape (t : DescTable.Table Nat) : String :=
+  s!"m={t.masks.length} i={t.items.length} n={DescTable.count t}"
+
+def step (st : St) (args : List String) : St × String :=
+  match args with
+  | ["modelled"] => (st, String.intercalate " " modelled)
+  | ["variant", v] =>
+    if v == "asis" then ({ st with fixed := false }, "ok")
+    else if v == "fixed" then ({ st with fixed := true }, "ok") else (st, "bad-op")
+  | ["host", as, es, sin, wall, wres, mono, mres, pre] =>
+    match parseHexList as, parseHexList es, parseBytes sin, parseNat wall, parseNat wres, parseNat mono, parseNat mres, parseBytes pre with
+    | some a, some e, some s, some w, some wr, some mo, some mr, some p =>
+      ({ st with host := { args := a, env := e, stdin := s, wall := w, wallRes := wr, mono := mo, monoRes := mr, preName := p } }, "ok")
+    | _, _, _, _, _, _, _, _ => (st, "bad-op")
+  | ["img", name, size, fill, runs] =>
+    match parseNat size, parseNat fill, parseRuns runs with
+    | some sz, some f, some rs =>
+      ({ st with imgs := (name, Mem.ofRuns sz f rs) :: st.imgs.filter (·.1 != name) }, "ok")
+    | _, _, _ => (st, "bad-op")
+  | "call" :: fn :: img :: fds :: rest =>
+    match (st.imgs.find? (·.1 == img)).map (·.2), parseFds fds, parseNats rest with
+    | some m, some t, some a =>
+      -- fd_renumber onto a large target: the table is not materialised (that is finding F16); the errno comes
+      -- from the decision part and the allocation from `slotsAfterInsertAt`
+      if fn == "fd_renumber" && a.length == 2 && w32 (a.getD 1 0) ≥ 65536 && w32 (a.getD 1 0) < 2147483648 then
+        match renumberCheck none t (w32 (a.getD 0 0)) (w32 (a.getD 1 0)) with
+        | .error e => (st, errStr e)
+        | .ok (_, _, dst) => (st, s!"e=0 a={8 * (slotsAfterInsertAt t dst - DescTable.slots t)}")
+      else
+      match call st.fixed st.host t m fn a with
+      | some r => (st, resStr r)
+      | none => (st, "bad-op")
+    | _, _, _ => (st, "bad-op")
+  | ["tbl", "new"] => ({ st with tbl := DescTable.empty }, "ok")
+  | ["tbl", "insert", id] =>
+    match parseNat id with
+    | some id =>
+      let (t, key, ok) := DescTable.insert st.tbl id
+      ({ st with tbl := t }, s!"{key} {b2s ok} {tblShape t}")
+    | none => (st, "bad-op")
+  | ["tbl", "insertat", id, key] =>
+    match parseNat id, parseInt key with
+    | some id, some k =>
+      let (t, ok) := DescTable.insertAt st.tbl id k
+      ({ st with tbl := t }, s!"{b2s ok} {tblShape t}")
+    | _, _ => (st, "bad-op")
+  | ["tbl", "delete", key] =>
+    match parseInt key with
+    | some k =>
+      let t := DescTable.delete st.tbl k
+      ({ st with tbl := t }, s!"ok {tblShape t}")
+    | none => (st, "bad-op")
+  | ["tbl", "lookup", key] =>
+    match parseInt key with
+    | some k =>
+      let r := match DescTable.lookup st.tbl k with
+        | some id => toString id
+        | none => "-"
+      (st, s!"{r} {tblShape st.tbl}")
+    | none => (st, "bad-op")
+  | ["tbl", "reset"] =>
+    let t := DescTable.reset st.tbl
+    ({ st with tbl := t }, s!"ok {tblShape t}")
+  | _ => (st, "bad-op")
 
 end Oracle.C15
